@@ -280,12 +280,12 @@ func RunPcsRespCase(cs map[string]any, id int, seed int64) Result {
 	for _, o := range []map[string]any{{"gc": true, "cr": false}, {"gc": true, "cr": true}} {
 		g.Reset()
 		opts := VerifyOpts(c, o)
-		out := Guard(15*time.Second, func() error { return verify.TdxQuote(m, opts) })
+		out := Guard(120*time.Second, func() error { return verify.TdxQuote(m, opts) })
 		verdicts = append(verdicts, out.Verdict())
 		if out.Panic != "" || out.Timeout {
 			crashed = append(crashed, "verify.TdxQuote: "+out.ErrText())
 		}
-		o2 := Guard(15*time.Second, func() error { _, _, err := verify.SupportedTcbLevelsFromCollateral(m, opts); return err })
+		o2 := Guard(120*time.Second, func() error { _, _, err := verify.SupportedTcbLevelsFromCollateral(m, opts); return err })
 		if o2.Panic != "" || o2.Timeout {
 			notes = append(notes, "verify.SupportedTcbLevelsFromCollateral")
 		}
